@@ -446,7 +446,10 @@ class Gen:
         ndefs = r.randint(0, self.k.defs)
         sigs = []
         for i in range(ndefs):
-            ps = [(self.fresh("p"), self.pick([INT, INT, BOOL, OINT] if self.k.nilable else [INT, INT, BOOL])) for _ in range(r.randint(0, 3))]
+            ptypes = [INT, INT, BOOL, OINT] if self.k.nilable else [INT, INT, BOOL]
+            if self.k.closures and self.k.closure_bias:
+                ptypes = ptypes + [fn_ty([], INT), fn_ty([INT], INT)]   # closures passed to methods (also in tail position)
+            ps = [(self.fresh("p"), self.pick(ptypes)) for _ in range(r.randint(0, 3))]
             ret = self.pick([INT, INT, INT, BOOL])
             if self.k.closures and r.random() < 0.25:
                 ret = fn_ty([self.pick([INT])] if r.random() < 0.6 else [], INT)
